@@ -825,6 +825,7 @@ Definition charge (k : conn) (qos : N) : conn :=
 (* the conditions under which readLoop + publishHandler do not end the connection *)
 Definition pub_accepts (k : conn) (qos : N) (retain : bool) (topic : str) (props : list prop) : bool :=
   negb (has_wild topic) &&
+  negb ((k_v k =? 5) && match p_alias props with Some a => a =? 0 | None => false end) &&
   negb (is_empty topic && negb ((k_v k =? 5) && match p_alias props with Some _ => true | None => false end)) &&
   negb ((k_v k =? 5) && (0 <? qos) && (k_quota k =? 0)) &&
   negb (negb (k_retain_avail k) && retain) && alias_ok (k_v k =? 5) k topic props.
@@ -851,13 +852,13 @@ Lemma handle_packet_publish c k dup qos retain topic payload pid props s :
 Proof.
   intros H v5. unfold pub_accepts in H.
   apply andb_prop in H as [H Ha]. apply andb_prop in H as [H Hr]. apply andb_prop in H as [H Hq].
-  apply andb_prop in H as [Hw He].
-  apply negb_true_iff in Hw, He, Hq, Hr.
+  apply andb_prop in H as [H He]. apply andb_prop in H as [Hw Hz].
+  apply negb_true_iff in Hw, Hz, He, Hq, Hr.
   rewrite <- (alias_ok_charge _ _ qos) in Ha.
   destruct (pub_alias_ok v5 (charge k qos) topic props (msg_of_publish v5 dup qos retain topic payload pid props) Ha)
     as (k' & m & Hal & _ & _).
   exists k', m. split; [exact Hal|].
-  cbn [handle_packet]. rewrite Hw. fold v5 in He, Hq |- *. rewrite He, Hq.
+  cbn [handle_packet]. rewrite Hw. fold v5 in Hz, He, Hq |- *. rewrite Hz, He, Hq.
   change (if v5 && (0 <? qos) then set_quota (k_quota k - 1) k else k) with (charge k qos).
   rewrite handle_publish_stages.
   destruct (charge_fields k qos) as (_ & Ev & Era & _ & _).
@@ -874,6 +875,7 @@ Lemma handle_packet_publish_rejected c k dup qos retain topic payload pid props 
 Proof.
   unfold pub_accepts. intros H. cbn [handle_packet].
   destruct (has_wild topic); [left; eauto|].
+  match goal with |- context [if ?b then HErrRead s (Some 148) else _] => destruct b end; [left; eauto|].
   match goal with |- context [if ?b then HErrRead s (Some 130) else _] => destruct b end; [left; eauto|].
   destruct ((k_v k =? 5) && (0 <? qos) && (k_quota k =? 0)) eqn:Hq; [left; eauto|]. right.
   change (if (k_v k =? 5) && (0 <? qos) then set_quota (k_quota k - 1) k else k) with (charge k qos).
@@ -1521,6 +1523,7 @@ Proof.
   - destruct (has_wild topic); [discriminate|].
     match type of H with (if ?b then _ else _) = _ => destruct b end; [discriminate|].
     match type of H with (if ?b then _ else _) = _ => destruct b end; [discriminate|].
+    match type of H with (if ?b then _ else _) = _ => destruct b end; [discriminate|].
     rewrite handle_publish_stages in H. cbv zeta in H.
     match type of H with (if ?b then _ else _) = _ => destruct b end; [congruence|].
     match type of H with context [pub_alias ?a ?b ?c ?d ?e] => destruct (pub_alias a b c d e) as [[[k' m]|]|cd] end; try congruence.
@@ -2129,6 +2132,9 @@ Proof.
     - destruct Hte as [-> ->]. cbn [ev_wf] in Hwe. destruct Hwe as (Hw & He & Hr & Ha).
       assert (Hacc : pub_accepts k 2 retain topic props = true).
       { unfold pub_accepts. rewrite Hw, He, Hra, Hv. cbn [negb andb].
+        assert (Ez : (k_v k0 =? 5) && match p_alias props with Some a => a =? 0 | None => false end = false)
+          by (destruct (k_v k0 =? 5); [rewrite Ha|]; reflexivity).
+        rewrite Ez. cbn [negb andb].
         assert (Eq : (k_quota k =? 0) = false) by (apply N.eqb_neq; lia). rewrite Eq, andb_false_r. cbn [negb andb].
         assert (Er : negb (k_retain_avail k0) && retain = false) by (destruct Hr as [->| ->]; [reflexivity|apply andb_false_r]).
         rewrite Er. cbn [negb andb]. unfold alias_ok. now rewrite Ha. }
